@@ -39,7 +39,7 @@ def plan(tier, seed):
     chunks.append({'kind': 'reject'})
     chunks.append({'kind': 'anyparent', 'maxlen': maxlen})
     return {
-        'chunks': chunks,
+        'chunks': chunks + [{'kind': 'clipipe'}],
         'rule': 'NeGra heuristic: every hierarchy over n tokens (<= u unary insertions) x every assignment of '
                 '{HD,NK,--} to every child; rule presets: every (preset, parent category, listed child category) '
                 'of both tables x child sequences of length 1..%d with the listed child at every position and '
@@ -48,7 +48,8 @@ def plan(tier, seed):
                 % maxlen,
         'bound': ', '.join('n=%d:u<=%d' % s for s in specs) + '; %d table entries, sequences <= %d' % (len(items), maxlen),
         'exhaustive': True,
-        'assumptions': ['"listed in the head rule" = occurs in any priority list of the parent category',
+        'assumptions': ['driver differential (vt/clipipe.py): `treetools transform` with the pipelines that involve this operation, with and without --split, on a six-sentence corpus must write what the named functions give when applied by the harness in the given order',
+                        '"listed in the head rule" = occurs in any priority list of the parent category',
                         'every rule case is preceded by the same call under the other preset (forces collisions in any cache)'],
     }
 
@@ -259,6 +260,9 @@ def check_reject():
 
 
 def check_case(case):
+    if 'clipipe' in case:
+        from .. import clipipe
+        return clipipe.replay(case)
     with quiet():
         if 'negra' in case:
             return check_negra(case['negra'], case.get('order'))[0]
@@ -290,6 +294,11 @@ def edge_assignments(sh):
 
 
 def run_chunk(chunk):
+    if chunk.get('kind') == 'clipipe':
+        from .. import clipipe
+        res = Result()
+        clipipe.run_property(ID, res)
+        return res
     res = Result()
     with quiet():
         if chunk['kind'] == 'negra':
